@@ -65,6 +65,9 @@ def valueOkIn (ty : Nat) (v : Bytes) : Bool :=
   else true
 
 
+/-- `assert_valid_psbt_version`: the versions `parse` and `serialize` take -/
+def admitsVersion (ver : Nat) : Bool := ver == 0 || ver == 2
+
 /-- the tables one map kind is parsed and serialized by -/
 structure Spec where
   order : List Nat              -- emission order of the field types; 256 = the `unknown` records
@@ -89,9 +92,6 @@ def known (ty : Nat) : Bool := s.whole.contains ty || s.keyed.contains ty
 def cls (k : Bytes) : Nat := if s.known (tyOf k) then tyOf k else 256
 /-- position in the emission order -/
 def rank (k : Bytes) : Nat := s.order.idxOf (s.cls k)
-
-/-- `assert_valid_psbt_version`: the versions `parse` and `serialize` take -/
-def admits (ver : Nat) : Bool := ver == 0 || ver == 2
 
 /-- fields the loop of `serialize` passes over at this version -/
 def gated (ver : Nat) (ty : Nat) : Bool :=
@@ -164,7 +164,7 @@ def reser (s : Spec) (ver : Nat) (b : Bytes) : Except Err Bytes :=
   match parseMap b with
   | .error e => .error e
   | .ok (recs, rest) =>
-    if !s.admits ver then .error .invalid
+    if !admitsVersion ver then .error .invalid
     else if !rest.isEmpty then .error .trailing
     else if recs.all (s.recordOk ver) then .ok (serMap (toRecs s ver (fromRecs s recs)))
     else .error .invalid
